@@ -30,7 +30,7 @@ RULE = ('one run = a seeded base history (FileStorage on the simulated '
         'data file and blob directory compared after every op; non-trivial = >= 1 base and >= 2 demo '
         'commits; distinct = (kinds, outcome sequence)')
 BUDGET = {'quick': {'runs': 10000, 'wall': 300, 'chunk': 25},
-          'thorough': {'runs': 800000, 'wall': 1800, 'chunk': 100}}
+          'thorough': {'runs': 800000, 'wall': 1200, 'chunk': 100}}
 ASSUMPTIONS = [
     'closing a DemoStorage closes its base, and closing a FileStorage '
     'saves an index: "base unchanged" is decided on the base data file '
